@@ -122,81 +122,135 @@ Encode(prog, version) ==
   IN [magic |-> Magic, off |-> 8 + SumVarLen(e8.p, 1), toks |-> e8.p, strs |-> e8.s]
 
 (***************************************************************************)
-(* decoder: state [p, i: varints and read position, s, j: string section   *)
-(* and read position, err].                                                *)
-(* Every reader returns <<value, state'>> and is total: running out of     *)
-(* input or meeting an impossible count sets err instead of failing, so a  *)
-(* malformed file is rejected, not a crash of the checker.                 *)
+(* decoder.  A cursor is a pair: i = index of the next varint, j = index   *)
+(* of the next byte of the string section.  Every reader returns           *)
+(*    [v: value, i, j: cursor after it, ok: input was sufficient and sane] *)
+(* and is total (a malformed file is rejected, not a crash of the          *)
+(* checker).  Lists whose items have a fixed number of varints are read by *)
+(* index arithmetic: item k of a list starting at i occupies the varints   *)
+(* i + w*(k-1) .. i + w*k - 1, and its string starts where the strings of  *)
+(* the items before it end (lock step).                                    *)
 (***************************************************************************)
-D0(enc) == [p |-> enc.toks, i |-> 1, s |-> enc.strs, j |-> 1, err |-> FALSE]
-Fail(d) == [d EXCEPT !.err = TRUE]
-PLeft(d) == Len(d.p) - d.i + 1          \* varints not yet read
-SLeft(d) == Len(d.s) - d.j + 1          \* string bytes not yet read
-DRaw(d) == IF d.i > Len(d.p) THEN <<<<>>, Fail(d)>> ELSE <<d.p[d.i], [d EXCEPT !.i = @ + 1]>>
-DInt(d) == LET x == DRaw(d) IN IF Small(x[1]) THEN <<UnZ(x[1]), x[2]>> ELSE <<0, Fail(x[2])>>
-DBool(d) == LET x == DInt(d) IN <<x[1] # 0, x[2]>>
-\* a count of items still to be read cannot exceed what is left
-DCount(d) == LET x == DInt(d) IN IF x[1] \in 0..PLeft(x[2]) THEN x ELSE <<0, Fail(x[2])>>
-DStr(d) == LET x == DInt(d) IN
-           IF x[1] \in 0..SLeft(x[2])
-           THEN <<SubSeq(x[2].s, x[2].j, x[2].j + x[1] - 1), [x[2] EXCEPT !.j = @ + x[1]]>>
-           ELSE <<<<>>, Fail(x[2])>>
-DIdent(d) == LET a == DStr(d) b == DInt(a[2]) c == DInt(b[2]) IN
-             <<[name |-> a[1], line |-> b[1], col |-> c[1]], c[2]>>
+TokOK(toks, i) == i \in 1..Len(toks) /\ Small(toks[i])
+IntAt(toks, i) == IF TokOK(toks, i) THEN UnZ(toks[i]) ELSE 0
+RawAt(toks, i) == IF i \in 1..Len(toks) THEN toks[i] ELSE <<>>
+Bytes(strs, j, n) == SubSeq(strs, j, j + n - 1)
 
-\* read n items with reader R, accumulating
-RECURSIVE DMany(_, _, _, _)
-DMany(R(_), d, n, acc) == IF n = 0 THEN <<acc, d>> ELSE LET x == R(d) IN DMany(R, x[2], n - 1, Append(acc, x[1]))
-DList(R(_), d) == LET c == DCount(d) IN DMany(R, c[2], c[1], <<>>)
+\* Pre(lens)[k] = lens[1] + ... + lens[k-1];  Total(lens) = sum of all
+RECURSIVE PreFrom(_, _, _, _)
+PreFrom(lens, k, sum, acc) == IF k > Len(lens) THEN Append(acc, sum) ELSE PreFrom(lens, k + 1, sum + lens[k], Append(acc, sum))
+Pre(lens) == PreFrom(lens, 1, 0, <<>>)          \* Len(lens) + 1 entries; the last one is the total
+Total(lens) == Pre(lens)[Len(lens) + 1]
 
-DConst(d) ==
-  LET ty == DInt(d) IN
-  CASE ty[1] = 0 -> LET x == DStr(ty[2]) IN <<[t |-> "string", v |-> x[1]], x[2]>>
-    [] ty[1] = 1 -> LET x == DStr(ty[2]) IN <<[t |-> "bytes", v |-> x[1]], x[2]>>
-    [] ty[1] = 2 -> LET x == DRaw(ty[2]) IN <<[t |-> "int", v |-> UnZBig(x[1])], x[2]>>
-    [] ty[1] = 3 -> LET x == DRaw(ty[2]) IN <<[t |-> "float", v |-> x[1]], x[2]>>
-    [] ty[1] = 4 -> LET x == DStr(ty[2]) IN
-                    IF IsDecText(x[1]) THEN <<[t |-> "bigint", v |-> TextDec(x[1])], x[2]>>
-                    ELSE <<[t |-> "bigint", v |-> Zero], Fail(x[2])>>
-    [] OTHER -> <<[t |-> "string", v |-> <<>>], Fail(ty[2])>>
+\* a list of n items of w varints each, the varint at offset so (0-based) of every item being
+\* the length of the item's string (so = -1: the items have no string); Item(k, base, start)
+\* builds item k from its first varint index and the start of its string
+RdList(toks, strs, i, j, w, so, Item(_, _, _)) ==
+  LET n    == IntAt(toks, i)
+      cnt  == IF TokOK(toks, i) /\ n >= 0 /\ i + w * n <= Len(toks) THEN n ELSE 0
+      lens == [k \in 1..cnt |-> IF so < 0 THEN 0 ELSE IntAt(toks, i + 1 + w * (k - 1) + so)]
+      offs == Pre(lens)
+  IN [v  |-> [k \in 1..cnt |-> Item(k, i + 1 + w * (k - 1), j + offs[k])],
+      i  |-> i + 1 + w * cnt,
+      j  |-> j + offs[cnt + 1],
+      ok |-> /\ TokOK(toks, i) /\ n = cnt
+             /\ \A k \in (i + 1)..(i + w * cnt) : (so < 0 \/ TRUE) => k \in 1..Len(toks)
+             /\ \A k \in 1..cnt : lens[k] >= 0
+             /\ j + offs[cnt + 1] - 1 <= Len(strs)]
 
-DFunc(d) ==
-  LET id == DIdent(d)
-      doc == DStr(id[2])
-      code == DStr(doc[2])
-      pcl == DList(DInt, code[2])
-      loc == DList(DIdent, pcl[2])
-      cel == DList(DInt, loc[2])
-      fre == DList(DIdent, cel[2])
-      ms == DInt(fre[2])
-      np == DInt(ms[2])
-      nk == DInt(np[2])
-      hv == DBool(nk[2])
-      hk == DBool(hv[2])
-  IN <<[name |-> id[1].name, line |-> id[1].line, col |-> id[1].col, doc |-> doc[1], code |-> code[1],
-        pclinetab |-> pcl[1], locals |-> loc[1], cells |-> cel[1], freevars |-> fre[1],
-        maxstack |-> ms[1], numparams |-> np[1], numkwonly |-> nk[1], hasvarargs |-> hv[1], haskwargs |-> hk[1]],
-       hk[2]>>
+RdInts(toks, strs, i, j) ==
+  LET r == RdList(toks, strs, i, j, 1, -1, LAMBDA k, base, start : IntAt(toks, base)) IN
+  [r EXCEPT !.ok = @ /\ \A k \in (i + 1)..(r.i - 1) : TokOK(toks, k)]
+RdStrs(toks, strs, i, j) ==
+  LET r == RdList(toks, strs, i, j, 1, 0, LAMBDA k, base, start : Bytes(strs, start, IntAt(toks, base))) IN
+  [r EXCEPT !.ok = @ /\ \A k \in (i + 1)..(r.i - 1) : TokOK(toks, k)]
+RdIdents(toks, strs, i, j) ==
+  LET r == RdList(toks, strs, i, j, 3, 0,
+                  LAMBDA k, base, start : [name |-> Bytes(strs, start, IntAt(toks, base)),
+                                           line |-> IntAt(toks, base + 1), col |-> IntAt(toks, base + 2)]) IN
+  [r EXCEPT !.ok = @ /\ \A k \in (i + 1)..(r.i - 1) : TokOK(toks, k)]
+
+\* a constant is two varints: the type and either a string length (types 0, 1, 4) or the data
+ConstAt(toks, strs, base, start) ==
+  LET ty == IntAt(toks, base) IN
+  CASE ty = 0 -> [t |-> "string", v |-> Bytes(strs, start, IntAt(toks, base + 1))]
+    [] ty = 1 -> [t |-> "bytes", v |-> Bytes(strs, start, IntAt(toks, base + 1))]
+    [] ty = 2 -> [t |-> "int", v |-> UnZBig(RawAt(toks, base + 1))]
+    [] ty = 3 -> [t |-> "float", v |-> RawAt(toks, base + 1)]
+    [] ty = 4 -> LET txt == Bytes(strs, start, IntAt(toks, base + 1)) IN
+                 [t |-> "bigint", v |-> IF IsDecText(txt) THEN TextDec(txt) ELSE Zero]
+    [] OTHER -> [t |-> "unknown", v |-> <<>>]
+ConstOK(toks, strs, base, start) ==
+  LET ty == IntAt(toks, base) IN
+  /\ TokOK(toks, base) /\ ty \in 0..4 /\ base + 1 <= Len(toks)
+  /\ ty \in {0, 1, 4} => TokOK(toks, base + 1)
+  /\ ty = 4 => IsDecText(Bytes(strs, start, IntAt(toks, base + 1)))
+RdConsts(toks, strs, i, j) ==
+  LET n    == IntAt(toks, i)
+      cnt  == IF TokOK(toks, i) /\ n >= 0 /\ i + 2 * n <= Len(toks) THEN n ELSE 0
+      lens == [k \in 1..cnt |-> IF IntAt(toks, i + 1 + 2 * (k - 1)) \in {0, 1, 4} THEN IntAt(toks, i + 2 + 2 * (k - 1)) ELSE 0]
+      offs == Pre(lens)
+  IN [v  |-> [k \in 1..cnt |-> ConstAt(toks, strs, i + 1 + 2 * (k - 1), j + offs[k])],
+      i  |-> i + 1 + 2 * cnt,
+      j  |-> j + offs[cnt + 1],
+      ok |-> /\ TokOK(toks, i) /\ n = cnt
+             /\ \A k \in 1..cnt : lens[k] >= 0
+             /\ j + offs[cnt + 1] - 1 <= Len(strs)
+             /\ \A k \in 1..cnt : ConstOK(toks, strs, i + 1 + 2 * (k - 1), j + offs[k])]
+
+RdFunc(toks, strs, i, j) ==
+  LET nlen == IntAt(toks, i)                     \* id: name, line, col
+      dlen == IntAt(toks, i + 3)                 \* doc
+      clen == IntAt(toks, i + 4)                 \* code
+      j1   == j + nlen
+      j2   == j1 + dlen
+      j3   == j2 + clen
+      pcl  == RdInts(toks, strs, i + 5, j3)
+      loc  == RdIdents(toks, strs, pcl.i, pcl.j)
+      cel  == RdInts(toks, strs, loc.i, loc.j)
+      fre  == RdIdents(toks, strs, cel.i, cel.j)
+      e    == fre.i                              \* maxstack numparams numkwonly hasvarargs haskwargs
+  IN [v |-> [name |-> Bytes(strs, j, nlen), line |-> IntAt(toks, i + 1), col |-> IntAt(toks, i + 2),
+             doc |-> Bytes(strs, j1, dlen), code |-> Bytes(strs, j2, clen),
+             pclinetab |-> pcl.v, locals |-> loc.v, cells |-> cel.v, freevars |-> fre.v,
+             maxstack |-> IntAt(toks, e), numparams |-> IntAt(toks, e + 1), numkwonly |-> IntAt(toks, e + 2),
+             hasvarargs |-> IntAt(toks, e + 3) # 0, haskwargs |-> IntAt(toks, e + 4) # 0],
+      i |-> e + 5, j |-> fre.j,
+      ok |-> /\ \A k \in i..(i + 4) : TokOK(toks, k)
+             /\ nlen >= 0 /\ dlen >= 0 /\ clen >= 0 /\ j3 - 1 <= Len(strs)
+             /\ pcl.ok /\ loc.ok /\ cel.ok /\ fre.ok
+             /\ \A k \in e..(e + 4) : TokOK(toks, k)]
+
+\* functions have a variable number of varints: read them one after the other
+RECURSIVE RdFuncsFrom(_, _, _, _, _, _, _)
+RdFuncsFrom(toks, strs, i, j, n, acc, ok) ==
+  IF n = 0 THEN [v |-> acc, i |-> i, j |-> j, ok |-> ok]
+  ELSE LET f == RdFunc(toks, strs, i, j) IN RdFuncsFrom(toks, strs, f.i, f.j, n - 1, Append(acc, f.v), ok /\ f.ok)
+RdFuncs(toks, strs, i, j) ==
+  LET n == IntAt(toks, i)
+      cnt == IF TokOK(toks, i) /\ n >= 0 /\ i + n <= Len(toks) THEN n ELSE 0
+  IN RdFuncsFrom(toks, strs, i + 1, j, cnt, <<>>, TokOK(toks, i) /\ n = cnt)
 
 \* [ok, prog] ; ok is FALSE for a wrong magic number or version, an inconsistent
 \* offset, exhausted or unconsumed input
 Decode(enc, version) ==
-  LET ver == DInt(D0(enc))
-      fil == DStr(ver[2])
-      lds == DList(DIdent, fil[2])
-      nms == DList(DStr, lds[2])
-      cns == DList(DConst, nms[2])
-      glb == DList(DIdent, cns[2])
-      top == DFunc(glb[2])
-      fns == DList(DFunc, top[2])
-      rec == DBool(fns[2])
-      d   == rec[2]
+  LET toks == enc.toks
+      strs == enc.strs
+      flen == IntAt(toks, 2)                     \* varint 1 is the version, 2 the file name
+      lds == RdIdents(toks, strs, 3, 1 + flen)
+      nms == RdStrs(toks, strs, lds.i, lds.j)
+      cns == RdConsts(toks, strs, nms.i, nms.j)
+      glb == RdIdents(toks, strs, cns.i, cns.j)
+      top == RdFunc(toks, strs, glb.i, glb.j)
+      fns == RdFuncs(toks, strs, top.i, top.j)
   IN [ok |-> /\ enc.magic = Magic
-             /\ enc.off = 8 + SumVarLen(enc.toks, 1)
-             /\ ver[1] = version
-             /\ ~d.err /\ PLeft(d) = 0 /\ SLeft(d) = 0,
-      prog |-> [filename |-> fil[1], loads |-> lds[1], names |-> nms[1], consts |-> cns[1], globals |-> glb[1],
-                toplevel |-> top[1], funcs |-> fns[1], recursion |-> rec[1]]]
+             /\ enc.off = 8 + SumVarLen(toks, 1)
+             /\ TokOK(toks, 1) /\ IntAt(toks, 1) = version
+             /\ TokOK(toks, 2) /\ flen \in 0..Len(strs)
+             /\ lds.ok /\ nms.ok /\ cns.ok /\ glb.ok /\ top.ok /\ fns.ok
+             /\ TokOK(toks, fns.i) /\ fns.i = Len(toks) /\ fns.j = Len(strs) + 1,
+      prog |-> [filename |-> Bytes(strs, 1, flen), loads |-> lds.v, names |-> nms.v, consts |-> cns.v, globals |-> glb.v,
+                toplevel |-> top.v, funcs |-> fns.v, recursion |-> IntAt(toks, fns.i) # 0]]
 
 \* the two laws of the format
 RoundTrip(prog, version) == Decode(Encode(prog, version), version) = [ok |-> TRUE, prog |-> prog]
